@@ -27,7 +27,7 @@ RULE = ("Hypothesis: VEVENT/VTODO with start in {absent, date, floating, UTC, zo
 ASSUMPTIONS = ["an event without DTSTART may answer IncompleteComponent even if all alarms are absolute (documented error)",
                "date + whole-day offset stays a date, otherwise midnight is used (documented _add rule)",
                "with a local time zone set a date-valued alarm time may be reported as the date or as local midnight"]
-REQUIRED_CLASSES = ["repeat-with-duration", "related-end", "date-start", "absolute-trigger", "path:api", "path:parse", "path:manual",
+REQUIRED_CLASSES = ["manual-history", "absolute-twin-of-relative", "repeat-with-duration", "related-end", "date-start", "absolute-trigger", "path:api", "path:parse", "path:manual",
                     "no-trigger", "zoned-start", "missing-start"]
 
 DOCUMENTED = {"ComponentStartMissing", "ComponentEndMissing", "IncompleteComponent", "IncompleteAlarmInformation"}
@@ -189,6 +189,16 @@ def judge(case):
             A = Alarms()
             for al in alarm_objs:
                 A.add_alarm(al)
+            for h in case.get("history") or []:     # earlier life of the same Alarms object: other starts/ends, times read
+                try:
+                    A.set_start(V.dec(h, provider))
+                    A.set_end(V.dec(h, provider))
+                    A.times
+                except Exception:  # noqa: BLE001 - only the final state is judged
+                    pass
+            if case.get("history"):
+                A.set_start(None)
+                A.set_end(None)
             if case["start"]:
                 A.set_start(V.dec(case["start"], provider))
             if case["endspec"]["t"] == "end":
@@ -280,6 +290,10 @@ def info(case):
             nt = True
     if case.get("local_tz"):
         classes.append("local-tz")
+    if case.get("history"):
+        classes.append("manual-history")
+    if case.get("twin"):
+        classes.append("absolute-twin-of-relative")
     return {"nontrivial": nt, "classes": sorted(set(classes))}
 
 
@@ -333,8 +347,27 @@ def cases(draw):
         a["repeat"] = draw(st.sampled_from([None, 0, 1, 2, 5]))
         a["duration"] = draw(st.one_of(st.none(), _dur, _dur))
         alarms.append(a)
+    twin = False
+    if start is not None and start["k"] in ("utc", "zoned") and draw(st.integers(0, 2)) == 0:
+        # an absolute alarm at the very instant of a relative one, with the same repeats (the two must not influence each other)
+        for a in list(alarms):
+            if a["trigger"] is not None and a["trigger"]["k"] == "td" and a.get("related") != "END":
+                at = (V.dec(start, "zoneinfo") + td(a["trigger"])).astimezone(timezone.utc)
+                alarms.insert(draw(st.integers(0, len(alarms))), {"trigger": {"k": "utc", "v": [at.year, at.month, at.day, at.hour, at.minute, at.second]},
+                                                                   "repeat": a["repeat"], "duration": a["duration"]})
+                twin = True
+                break
     local = draw(st.sampled_from([None, None, None, "Europe/Berlin", "America/New_York"]))
-    return {"provider": provider, "path": path, "comp": draw(st.sampled_from(["Event", "Todo"])), "start": start, "endspec": es,
+    history = None
+    if path == "manual" and start is not None and draw(st.booleans()):
+        history = draw(st.lists(st.one_of(V.s_utc, V.s_zoned, V.s_zoned_dst, V.s_date), max_size=2))
+        if start["k"] in ("utc", "zoned"):    # the same instant in another zone
+            inst = V.dec(start, "zoneinfo").astimezone(timezone.utc)
+            z = draw(st.sampled_from(["Europe/Berlin", "America/New_York", "Asia/Kolkata", "UTC"]))
+            w = inst.astimezone(__import__("zoneinfo").ZoneInfo(z))
+            history.append({"k": "utc", "v": [w.year, w.month, w.day, w.hour, w.minute, w.second]} if z == "UTC" else
+                           {"k": "zoned", "v": [w.year, w.month, w.day, w.hour, w.minute, w.second], "tz": z, "fold": w.fold})
+    return {"history": history, "twin": twin, "provider": provider, "path": path, "comp": draw(st.sampled_from(["Event", "Todo"])), "start": start, "endspec": es,
             "alarms": alarms, "local_tz": local}
 
 
